@@ -71,6 +71,11 @@ type Frame struct {
 	// set on the frame of a helper that is absent from the baseline and is verified as part of its caller (shape.go)
 	host     *Frame
 	hostNext bool
+	// loop ordinals (see findLoops): first virtual ordinal reserved for the loops of a helper called at an instruction;
+	// offset of this frame's own numbering; loop clauses of the contract that matched none of this frame's loops
+	virtBase     map[ssa.Instruction]int
+	virtOffset   int
+	pendingLoops map[*Clause]bool
 	callCallee   *ssa.Function
 	callBindings []Val
 	frameLo, frameHi string // position range of the element write being frame-checked
@@ -383,6 +388,10 @@ func (fr *Frame) resolveAt(name string, b *ssa.BasicBlock, idx int, st *State, p
 			return Val{T: e.loadAt(st, v.T, v.Src, pt), Ty: pt}, true
 		}
 	}
+	if fr.host != nil && fr.host.block != nil {
+		// a helper verified as part of its caller (shape.go): names it does not have are the caller's, at the call
+		return fr.host.resolveAt(name, fr.host.block, fr.host.idx, st, nil)
+	}
 	return Val{}, false
 }
 
@@ -494,6 +503,7 @@ func (fr *Frame) findLoops() {
 		}
 	}
 	if len(fr.loops) == 0 {
+		fr.matchLoopClauses(nil)
 		return
 	}
 	// source-order ordinals and keys from the AST
@@ -547,10 +557,39 @@ func (fr *Frame) findLoops() {
 		}
 		return hs[i].h.Index < hs[j].h.Index
 	})
+	// loop ordinals count the loops of helpers that are verified as part of this function (shape.go) at the place of
+	// their call, so `loop #3` keeps its meaning when the third loop is moved into such a helper
+	type hcall struct {
+		in  ssa.Instruction
+		pos token.Pos
+		n   int
+	}
+	var hcalls []hcall
+	for _, b := range fn.Blocks {
+		for _, in := range b.Instrs {
+			if c, ok := in.(*ssa.Call); ok {
+				if f := c.Call.StaticCallee(); f != nil && fr.e.newHelpers[f] && fr.e.specs.Funcs[f.String()] == nil {
+					if n := fr.e.loopCount(f, 0); n > 0 {
+						hcalls = append(hcalls, hcall{in, in.Pos(), n})
+					}
+				}
+			}
+		}
+	}
+	sort.Slice(hcalls, func(i, j int) bool { return hcalls[i].pos < hcalls[j].pos })
+	fr.virtBase = map[ssa.Instruction]int{}
+	virt := fr.virtOffset
+	hc := 0
 	for i, x := range hs {
+		for hc < len(hcalls) && hcalls[hc].pos < x.pos {
+			fr.virtBase[hcalls[hc].in] = virt
+			virt += hcalls[hc].n
+			hc++
+		}
+		virt++
 		li := fr.loops[x.h]
 		li.ord = i + 1
-		li.key = append(li.key, fmt.Sprintf("#%d", i+1))
+		li.key = append(li.key, fmt.Sprintf("#%d", virt))
 		if os.Getenv("GOVC_DEBUG_LOOPS") != "" {
 			fmt.Fprintf(os.Stderr, "loop %d in %s: minpos=%v astLoops=%d syn=%T\n", i+1, fn, fr.e.fset.Position(x.pos), len(astLoops), fn.Syntax())
 		}
@@ -589,6 +628,10 @@ func (fr *Frame) findLoops() {
 			}
 		}
 	}
+	for ; hc < len(hcalls); hc++ {
+		fr.virtBase[hcalls[hc].in] = virt
+		virt += hcalls[hc].n
+	}
 	// phi comments of the header (source variables modified in the loop) are keys as well
 	var ordered []*loopInfo
 	for _, x := range hs {
@@ -604,42 +647,99 @@ func (fr *Frame) findLoops() {
 			}
 		}
 	}
-	if fr.spec != nil {
-		for _, c := range fr.spec.Loops {
-			matched := false
+	fr.matchLoopClauses(ordered)
+}
+
+// matchLoopClauses attaches loop clauses to the loops of this frame. A frame with a contract matches its own clauses;
+// clauses that match none of its loops are kept pending for the loops of helpers verified as part of it (shape.go)
+// and reported at the end of the function if nobody took them. The frame of such a helper takes pending clauses of
+// the outermost host (by virtual ordinal or by variable name) and the host's `*` invariants.
+func (fr *Frame) matchLoopClauses(ordered []*loopInfo) {
+	attach := func(li *loopInfo, c *Clause) {
+		if c.Kind == "inv" {
+			li.invs = append(li.invs, c)
+		} else {
+			li.dec = c
+		}
+	}
+	find := func(c *Clause) *loopInfo {
+		for _, li := range ordered {
+			for _, k := range li.key {
+				if k == c.Key {
+					return li
+				}
+			}
+		}
+		return nil
+	}
+	if fr.host != nil {
+		top := fr.host
+		for top.host != nil {
+			top = top.host
+		}
+		if top.spec == nil {
+			return
+		}
+		for _, c := range top.spec.Loops {
 			if c.Key == "*" {
-				for _, li := range ordered {
-					if c.Kind == "inv" {
+				if c.Kind == "inv" {
+					for _, li := range ordered {
 						li.invs = append(li.invs, c)
 					}
 				}
 				continue
 			}
-			for _, li := range ordered {
-				for _, k := range li.key {
-					if k == c.Key {
-						matched = true
-						if c.Kind == "inv" {
-							li.invs = append(li.invs, c)
-						} else {
-							li.dec = c
-						}
-						break
-					}
-				}
-				if matched {
-					break
+			if !top.pendingLoops[c] {
+				continue
+			}
+			if li := find(c); li != nil {
+				attach(li, c)
+				delete(top.pendingLoops, c)
+			}
+		}
+		return
+	}
+	if fr.spec == nil {
+		return
+	}
+	fr.pendingLoops = map[*Clause]bool{}
+	for _, c := range fr.spec.Loops {
+		if c.Key == "*" {
+			if c.Kind == "inv" {
+				for _, li := range ordered {
+					li.invs = append(li.invs, c)
 				}
 			}
-			if !matched {
-				var have []string
-				for _, li := range fr.loops {
-					have = append(have, strings.Join(li.key, "|"))
+			continue
+		}
+		if li := find(c); li != nil {
+			attach(li, c)
+			continue
+		}
+		fr.pendingLoops[c] = true
+	}
+}
+
+// loops in fn, counting those of helpers verified as part of it
+func (e *Engine) loopCount(fn *ssa.Function, depth int) int {
+	hdr := map[*ssa.BasicBlock]bool{}
+	n := 0
+	for _, b := range fn.Blocks {
+		for _, s := range b.Succs {
+			if s.Dominates(b) && !hdr[s] {
+				hdr[s] = true
+				n++
+			}
+		}
+		for _, in := range b.Instrs {
+			if c, ok := in.(*ssa.Call); ok && depth < 6 {
+				if f := c.Call.StaticCallee(); f != nil && e.newHelpers[f] && e.specs.Funcs[f.String()] == nil {
+					n += e.loopCount(f, depth+1)
 				}
-				fr.e.unsupported = append(fr.e.unsupported, fmt.Sprintf("%s: loop clause key %q matches no loop (%s:%d); loops: %v", fr.prefix, c.Key, c.File, c.Line, have))
 			}
 		}
 	}
+	return n
 }
 
 func exprString(x ast.Expr) string {
@@ -844,13 +944,27 @@ func (fr *Frame) exec(reach string, st *State) (string, *State, []Val) {
 		}
 	}
 	// every call-site clause must have found its call: a clause that matches nothing checks nothing
+	if fr.spec != nil && fr.host == nil {
+		for _, c := range fr.spec.Loops {
+			if fr.pendingLoops[c] {
+				var have []string
+				for _, li := range fr.loops {
+					have = append(have, strings.Join(li.key, "|"))
+				}
+				e.unsupported = append(e.unsupported, fmt.Sprintf("%s: loop clause key %q matches no loop (%s:%d); loops: %v", fr.prefix, c.Key, c.File, c.Line, have))
+			}
+		}
+	}
 	if fr.spec != nil {
 		for _, c := range append(append([]*Clause{}, fr.spec.Asserts...), fr.spec.Assumes...) {
-			if strings.HasPrefix(c.Key, "store ") && !fr.matched[c] {
+			if strings.HasPrefix(c.Key, "store ") && !fr.matched[c] && !c.Optional {
 				e.unsupported = append(e.unsupported, fmt.Sprintf("%s: %s %q [%s] matches no store (%s:%d)", fr.prefix, c.Kind, c.Key, labelOr(c), c.File, c.Line))
 			}
 			if strings.HasPrefix(c.Key, "join ") && !fr.matched[c] {
 				e.unsupported = append(e.unsupported, fmt.Sprintf("%s: %s %q [%s] matches no merge point of that variable (%s:%d)", fr.prefix, c.Kind, c.Key, labelOr(c), c.File, c.Line))
+			}
+			if c.Key == "mapupdate" && !fr.matched[c] {
+				e.unsupported = append(e.unsupported, fmt.Sprintf("%s: %s %q [%s] matches no map update (%s:%d)", fr.prefix, c.Kind, c.Key, labelOr(c), c.File, c.Line))
 			}
 			if c.Key == "send" && !fr.matched[c] {
 				e.unsupported = append(e.unsupported, fmt.Sprintf("%s: %s %q [%s] matches no channel send (%s:%d)", fr.prefix, c.Kind, c.Key, labelOr(c), c.File, c.Line))
@@ -1245,6 +1359,9 @@ func (fr *Frame) step(in ssa.Instruction, incoming map[*ssa.BasicBlock][]edgeIn,
 		fr.checkFrame(dom, m.T, "map")
 		d := e.get(cur.st, dom)
 		vv := e.get(cur.st, val)
+		fr.assertAtMapUpdate(m, k, v,
+			Val{T: fmt.Sprintf("(select (select %s %s) %s)", d, m.T, k.T), Ty: types.Typ[types.Bool]},
+			Val{T: fmt.Sprintf("(select (select %s %s) %s)", vv, m.T, k.T), Ty: mt.Elem()})
 		e.set(cur.st, dom, fmt.Sprintf("(store %s %s (store (select %s %s) %s true))", d, m.T, d, m.T, k.T))
 		e.set(cur.st, val, fmt.Sprintf("(store %s %s (store (select %s %s) %s %s))", vv, m.T, vv, m.T, k.T, v.T))
 	case *ssa.Send:
@@ -1306,6 +1423,14 @@ func (fr *Frame) doStore(x *ssa.Store) {
 	}
 	fr.frameLo, fr.frameHi = "", ""
 	fr.assertAtStore(a, v)
+	if fa, ok := x.Addr.(*ssa.FieldAddr); ok && a.Src == nil {
+		bv := fr.val(fa.X)
+		if bp, ok := bv.Ty.Underlying().(*types.Pointer); ok {
+			if st, ok := isStruct(bp.Elem()); ok {
+				fr.assertAtStoreField(e.structKey(bp.Elem()), st.Field(fa.Field).Name(), bv.T, v)
+			}
+		}
+	}
 	e.storeAt(fr.cur.st, a.T, a.Src, pt, v.T)
 }
 
@@ -1403,6 +1528,31 @@ func (fr *Frame) assertAtJoin(p *ssa.Phi) {
 
 // assert-at send <label>: e   - checked at every channel send (plain or in a select) of the function;
 // `chan` and `value` name the channel and the value sent
+// assert-at mapupdate <label>: e   - checked at every `m[k] = v` of the function; `map`, `key`, `value` name the
+// operands, `had` and `oldvalue` what the map held under that key just before
+func (fr *Frame) assertAtMapUpdate(m, k, v, had, oldv Val) {
+	for _, o := range fr.clauseFrames() {
+		for _, c := range o.spec.Asserts {
+			if c.Key != "mapupdate" {
+				continue
+			}
+			o.matched[c] = true
+			env := o.envAt(o.block, o.idx, fr.cur.st, nil)
+			env.names["map"] = m
+			env.names["key"] = k
+			env.names["value"] = v
+			env.names["had"] = had
+			env.names["oldvalue"] = oldv
+			t, err := env.Goal(c.Expr)
+			if err != nil {
+				fr.e.unsupported = append(fr.e.unsupported, fmt.Sprintf("%s: assert-at mapupdate %s:%d: %v", fr.prefix, c.File, c.Line, err))
+				continue
+			}
+			fr.obligeAt(fr.cur.reach, "assert-at", "mapupdate["+labelOr(c)+"]", t, c.Src)
+		}
+	}
+}
+
 func (fr *Frame) assertAtSend(ch, v Val) {
 	for _, o := range fr.clauseFrames() {
 		fr.assertAtSendFor(o, ch, v)
